@@ -6,17 +6,17 @@ def op_conforming(world, line):
     """-> (single_value_op?, all values conform?) for the value-carrying ops, judged by the independent predicate"""
     ws = line.split()
     op = ws[0]
-    if op in ('set', 'eset', 'add', 'insert', 'setitem', 'extend', 'iadd', 'assign', 'remove', 'ior', 'symupd', 'ixor', 'setslice'):
+    if op in ('set', 'eset', 'add', 'insert', 'setitem', 'extend', 'iadd', 'assign', 'remove', 'ior', 'symupd', 'ixor', 'setslice', 'insertbad'):
         f = world.mm.feats[int(ws[2])]
         toks = {'set': ws[3:4], 'eset': ws[3:4], 'add': ws[3:4], 'insert': ws[4:5], 'setitem': ws[4:5],
-                'remove': [], 'setslice': ws[5:]}.get(op, ws[3:])
+                'remove': [], 'setslice': ws[5:], 'insertbad': ws[4:5]}.get(op, ws[3:])
         vals = []
         for t in toks:
             try:
                 vals.append(world.val(t))
             except Exception:
                 return None
-        single = op in ('set', 'eset', 'add', 'insert', 'setitem')
+        single = op in ('set', 'eset', 'add', 'insert', 'setitem', 'insertbad')
         return single, all(oracles.conforms(world, f, v) for v in vals), f
     return None
 
